@@ -553,6 +553,10 @@ def run(ctx):  # noqa: F811
     from rules import c08 as _c08, c01 as _c01
 
     _c08.r08_8_option_plumbing(ctx)  # frame-pointer wrappers are compiled with proto, scratch wrappers without (shared with C08)
+    from rules import c04 as _c04
+
+    _c04.r04_2_field_tables(ctx)  # the type a field accessor declares is the type the AVM field has (shared with C04)
+    _c02.r02_5_return(ctx)  # retsub always finds the declared number of values: a typed routine cannot return without one (shared with C02)
     _c01.r01_4e_flatten_traces(ctx)  # exactly one conditional branch consumes the condition of a conditional block (shared with C01)
     return (
         "Every emission site (class-level and factory-level, path-sensitive partial evaluation of constructors and __teal__) is typed against the op signature of the AVM "
